@@ -2,6 +2,7 @@ package rueidis
 
 import (
 	"context"
+	"time"
 
 	"github.com/redis/rueidis/internal/cmds"
 )
@@ -24,9 +25,18 @@ func VerifC05_pipeCtx() {
 		}
 	})
 	ctx, cancel := context.WithCancel(context.Background())
-	multi := verifChoose(2) == 1
+	kind := verifChoose(4) // 0 Do, 1 DoMulti, 2 DoCache (owner of the flight), 3 DoMultiCache
+	multi := kind == 1
 	verifGo("caller", func() {
-		if multi {
+		if kind == 2 {
+			r := p.DoCache(ctx, verifGetCache("ck"), time.Minute)
+			verifAssert(r.NonRedisError() == context.Canceled, "a cancelled cached read returns the context error")
+		} else if kind == 3 {
+			rs := p.DoMultiCache(ctx, CT(verifGetCache("ck1"), time.Minute), CT(verifGetCache("ck2"), time.Minute))
+			for _, r := range rs.s {
+				verifAssert(r.NonRedisError() == context.Canceled, "a cancelled cached batch returns the context error for every command")
+			}
+		} else if multi {
 			rs := p.DoMulti(ctx, verifIDCmd(1), verifIDCmd(2))
 			for _, r := range rs.s {
 				verifAssert(r.NonRedisError() == context.Canceled, "a cancelled batch returns the context error for every command")
